@@ -22,7 +22,7 @@ import numpy as np
 
 from cirq import ops, qis, sim
 from cirq.sim.simulation_state import SimulationState, TSimulationState
-from cirq.value import big_endian_int_to_bits
+from cirq.value import big_endian_int_to_digits
 
 if TYPE_CHECKING:
     import cirq
@@ -103,7 +103,7 @@ class ClassicalBasisSimState(SimulationState[ClassicalBasisState]):
             if qubits is None:
                 raise ValueError('qubits must be provided if initial_state is not Sequence[int]')
             state = ClassicalBasisState(
-                big_endian_int_to_bits(initial_state, bit_count=len(qubits))
+                big_endian_int_to_digits(initial_state, base=[q.dimension for q in qubits])
             )
         elif isinstance(initial_state, np.ndarray):
             if initial_state.ndim != 1:
